@@ -131,6 +131,25 @@ theorem conformant_dba_go_amd64 (sp ss : ConfStream 32) (ps : List Nat) (vs : Li
   refine goDecodeDBAamd64_eq _ _ _ _ _ vs h1 h2 h ?_
   rw [hsv, ← hsn, List.length_flatten]
 
+/-- FIXED_LEN_BYTE_ARRAY(size) through DELTA_BYTE_ARRAY as the default (assembly) build decodes it:
+the mirror of `DecodeFixedLenByteArray` with the amd64 Go wrapper of `decodeFixedLenByteArray`
+(kernels by contract) returns the values of every conformant stream whose values have `size` bytes
+(prefix length + suffix length = size at every position) and that ends with its suffix bytes. -/
+theorem conformant_flba_go_amd64 (size : Nat) (sp ss : ConfStream 32) (ps : List Nat) (vs : List (List Nat))
+    (hsp : sp.OK) (hss : ss.OK) (hpv : sp.values = ps.map (BitVec.ofNat 32))
+    (hp : prefixesOK [] ps vs) (hsv : ss.values = lensOf (cutSuffixes ps vs))
+    (h31 : ∀ v ∈ vs, v.length < 2 ^ 31)
+    (hsz : allSize size (sp.values.map BitVec.toNat) (ss.values.map BitVec.toNat))
+    (hb1 : sp.blockSize ≤ 65536) (ht1 : sp.total < 2 ^ 31) (hb2 : ss.blockSize ≤ 65536) (ht2 : ss.total < 2 ^ 31) :
+    goDecodeFLBAamd64 size (sp.bytes ++ (ss.bytes ++ (cutSuffixes ps vs).flatten)) = .ok vs := by
+  have h := goDecodeDBA_conf sp ss ps vs [] hsp hss hpv hp hsv h31 hb1 ht1 hb2 ht2
+  simp only [List.append_nil] at h
+  have h1 := goDecode_conf (Or.inl rfl) sp (ss.bytes ++ (cutSuffixes ps vs).flatten) hsp hb1 ht1
+  have h2 := goDecode_conf (Or.inl rfl) ss ((cutSuffixes ps vs).flatten) hss hb2 ht2
+  obtain ⟨_, hsn⟩ := natLens_ok (natLens_lensOf (cutSuffixes ps vs) (cutSuffixes_lt vs ps h31))
+  refine goDecodeFLBAamd64_eq size _ _ _ _ _ vs h1 h2 h hsz ?_
+  rw [hsv, ← hsn, List.length_flatten]
+
 /-- prefixes 0, 1 (the longest shared prefix of the second value would be 2) for `ab cd`, `ab cd ef` -/
 example : prefixesOK [] [0, 1] [[0xab, 0xcd], [0xab, 0xcd, 0xef]] ∧
     cutSuffixes [0, 1] [[0xab, 0xcd], [0xab, 0xcd, 0xef]] = [[0xab, 0xcd], [0xcd, 0xef]] := by decide
